@@ -226,7 +226,8 @@ def run_diff(ctx, cases, impl_exe, model_exe):
         ctx.cov["evaluations"] += 1
         a, b = impl[i], model[i]
         ws = line.split(" ")
-        ctx.count("op:" + (" ".join(ws[:2]) if ws[0] in ("fp", "fp2", "fp4", "fp12", "modn", "law") else ws[0]))
+        if ws[0] == "jm": ws = ["jm " + ws[1], ws[2]]
+        ctx.count("op:" + (" ".join(ws[:2]) if ws[0] in ("fp", "fp2", "fp4", "fp12", "modn", "law", "pred", "z256", "hexrt", "jm g1", "jm g2") else ws[0]))
         if b.startswith("MODEL-"):
             ctx.violation("model:" + cell, "model-side failure on `%s`: %s" % (line[:200], b[:200]), {"kind": "model", "op": line, "model": b}, False)
             continue
@@ -922,6 +923,196 @@ def run_import(ctx, impl_exe, model_exe):
     ctx.notes.append("predicates/import/containers: %d differential, %d import, %d cross-type, %d representative cases, %.1fs" % (len(diff), len(cases), len(cross), len(jc), time.time() - t0))
 
 
+# --------------------------------------------------------------------------- wave 5: Jacobian formulas, integer helpers, entropy consumers
+def run_wave5(ctx, impl_exe, model_exe):
+    import time
+    r = ctx.rng
+    thorough = ctx.tier == "thorough"
+    t0 = time.time()
+    G1, G2 = ref.G1, ref.G2
+    diff = []
+    add = lambda line, cell: diff.append((line, cell))
+    # Fp conversions
+    for a in FP_EDGE + [rnd(r, P) for _ in range(12)]:
+        for op in ("tomont", "frommont", "montsqr"):
+            add("fp %s %s" % (op, h64(a)), "fp:%s:%s" % (op, "edge" if a in FP_EDGE else "rand"))
+    for pt in ["00", "01", "10", "m1", "rr", "rr", "0r", "r0"]:
+        add("fp2 frob " + elem(r, pt), "fp2:frob:" + pt)
+    # ---- G1 Jacobian formulas on raw coordinates
+    def jac1(Pt, j):
+        return (Pt[0] * j * j % P, Pt[1] * pow(j, 3, P) % P, j % P)
+    j1h = lambda J: " ".join(h64(c) for c in J)
+    pts = [G1.mulp(rnd(r, N), ref.P1) for _ in range(4)]
+    INF1 = [(1, 1, 0), (0, 0, 0), (rnd(r, P), rnd(r, P), 0)]
+    for i, A in enumerate(pts):
+        B = pts[(i + 1) % 4]; ja, jb = 1 + rnd(r, P - 1), 1 + rnd(r, P - 1)
+        JA, JB, JA2, JNA = jac1(A, ja), jac1(B, jb), jac1(A, jb), jac1(G1.negp(A), jb)
+        for J in (JA, jac1(A, 1), INF1[i % 3]):
+            cls = "inf" if J[2] == 0 else ("affine" if J[2] == 1 else "jac")
+            add("jm g1 dbl " + j1h(J), "jm:g1:dbl:" + cls); add("jm g1 neg " + j1h(J), "jm:g1:neg:" + cls)
+            add("jm g1 oncurve " + j1h(J), "jm:g1:oncurve:" + cls)
+        add("jm g1 oncurve " + j1h((JA[0], (JA[1] + 1) % P, JA[2])), "jm:g1:oncurve:off")
+        add("jm g1 oncurve " + j1h((A[0], P - A[1], 1)), "jm:g1:oncurve:affine-neg")
+        for op in ("add", "sub"):
+            add("jm g1 %s %s %s" % (op, j1h(JA), j1h(JB)), "jm:g1:%s:generic" % op)
+            add("jm g1 %s %s %s" % (op, j1h(JA), j1h(JA2)), "jm:g1:%s:same-point" % op)
+            add("jm g1 %s %s %s" % (op, j1h(JA), j1h(JNA)), "jm:g1:%s:opposite" % op)
+            add("jm g1 %s %s %s" % (op, j1h(JA), j1h(INF1[0])), "jm:g1:%s:Q=inf" % op)
+            add("jm g1 %s %s %s" % (op, j1h(INF1[1]), j1h(JB)), "jm:g1:%s:P=inf" % op)
+            add("jm g1 %s %s %s" % (op, j1h((rnd(r, P), rnd(r, P), rnd(r, P))), j1h((rnd(r, P), rnd(r, P), rnd(r, P)))), "jm:g1:%s:off-curve" % op)
+        add("jm g1 equ %s %s" % (j1h(JA), j1h(JA2)), "jm:g1:equ:same"); add("jm g1 equ %s %s" % (j1h(JA), j1h(JNA)), "jm:g1:equ:opposite")
+        add("jm g1 equ %s %s" % (j1h(JA), j1h(JB)), "jm:g1:equ:differ")
+        add("jm g1 addaff %s %s %s" % (j1h(JA), h64(B[0]), h64(B[1])), "jm:g1:addaff:generic")
+        add("jm g1 addaff %s %s %s" % (j1h(JA), h64(A[0]), h64(A[1])), "jm:g1:addaff:same-point")
+        add("jm g1 addaff %s %s %s" % (j1h(JA), h64(A[0]), h64(P - A[1])), "jm:g1:addaff:opposite")
+        add("jm g1 addaff %s %s %s" % (j1h((rnd(r, P), rnd(r, P), rnd(r, P))), h64(rnd(r, P)), h64(rnd(r, P))), "jm:g1:addaff:off-curve")
+    for k in [N - 1, 2**64, rnd(r, N)] + ([(2**63 << 192) | 1, 31, 2**255] if thorough else []):
+        add("jm g1 mul %s %s" % (h64(k), j1h(jac1(pts[0], 1 + rnd(r, P - 1)))), "jm:g1:mul:" + limb_class(k))
+    add("jm g1 mul %s %s" % (h64(0), j1h(jac1(pts[0], 1))), "jm:g1:mul:zero")
+    # ---- G2
+    f2 = ref.f2mul
+    def jac2(Pt, j):
+        j2 = f2(j, j); j3 = f2(j2, j); return (f2(Pt[0], j2), f2(Pt[1], j3), j)
+    j2h = lambda J: " ".join(ref.f2_hex(c) for c in J)
+    rf2 = lambda: (rnd(r, P), rnd(r, P))
+    qs = [G2.mulp(rnd(r, N), ref.P2) for _ in range(3)]
+    INF2 = [((1, 0), (1, 0), (0, 0)), ((0, 0), (0, 0), (0, 0))]
+    for i, A in enumerate(qs):
+        B = qs[(i + 1) % 3]; ja, jb = (1 + rnd(r, P - 1), rnd(r, P)), (rnd(r, P), 1 + rnd(r, P - 1))
+        JA, JB, JA2, JNA = jac2(A, ja), jac2(B, jb), jac2(A, jb), jac2(G2.negp(A), jb)
+        AF = lambda Q: (Q[0], Q[1], (1, 0))
+        for J in (JA, AF(A), INF2[i % 2]):
+            cls = "inf" if J[2] == (0, 0) else ("affine" if J[2] == (1, 0) else "jac")
+            add("jm g2 dbl " + j2h(J), "jm:g2:dbl:" + cls); add("jm g2 neg " + j2h(J), "jm:g2:neg:" + cls)
+            add("jm g2 oncurve " + j2h(J), "jm:g2:oncurve:" + cls)
+        add("jm g2 oncurve " + j2h((A[0], (A[1][0], (P - A[1][1]) % P), (1, 0))), "jm:g2:oncurve:conj-y")
+        add("jm g2 oncurve " + j2h((JA[0], JA[1], ref.f2add(JA[2], (0, 1)))), "jm:g2:oncurve:off")
+        for op in ("addfull", "sub"):
+            add("jm g2 %s %s %s" % (op, j2h(JA), j2h(JB)), "jm:g2:%s:generic" % op)
+            add("jm g2 %s %s %s" % (op, j2h(JA), j2h(JA2)), "jm:g2:%s:same-point" % op)
+            add("jm g2 %s %s %s" % (op, j2h(JA), j2h(JNA)), "jm:g2:%s:opposite" % op)
+            add("jm g2 %s %s %s" % (op, j2h(JA), j2h(INF2[0])), "jm:g2:%s:Q=inf" % op)
+            add("jm g2 %s %s %s" % (op, j2h(INF2[1]), j2h(JB)), "jm:g2:%s:P=inf" % op)
+            add("jm g2 %s %s %s" % (op, j2h((rf2(), rf2(), rf2())), j2h((rf2(), rf2(), rf2()))), "jm:g2:%s:off-curve" % op)
+        add("jm g2 add %s %s" % (j2h(JA), j2h(AF(B))), "jm:g2:add:generic")
+        add("jm g2 add %s %s" % (j2h(JA), j2h(AF(A))), "jm:g2:add:same-point")
+        add("jm g2 add %s %s" % (j2h(JA), j2h(AF(G2.negp(A)))), "jm:g2:add:opposite")
+        add("jm g2 add %s %s" % (j2h(INF2[0]), j2h(AF(B))), "jm:g2:add:P=inf")
+        add("jm g2 add %s %s" % (j2h(JA), j2h(JB)), "jm:g2:add:Q-not-affine")
+    for k in [2**64 + 1] + ([N - 1, rnd(r, N)] if thorough else []):
+        add("jm g2 mul %s %s" % (h64(k), j2h(jac2(qs[0], (3, 5)))), "jm:g2:mul:" + limb_class(k))
+    # ---- 256-bit integer helpers
+    ze = [0, 1, 2**64 - 1, 2**64, 2**255, 2**256 - 1, P, N, 2**128 - 1, 2**192]
+    for a in ze:
+        for b in ze:
+            for op in ("add", "sub", "mul", "cmp", "equ"):
+                add("z256 %s %s %s" % (op, h64(a), h64(b)), "z256:%s:edge" % op)
+    for i in range(40):
+        a, b = rnd(r, 2**256), rnd(r, 2**256)
+        if i % 5 == 0: b = a ^ (1 << r.below(256))          # differ in exactly one bit
+        for op in ("add", "sub", "mul", "cmp", "equ"):
+            add("z256 %s %s %s" % (op, h64(a), h64(b)), "z256:%s:rand" % op)
+    for i in range(256):
+        add("z256 iszero %s" % h64(1 << i), "z256:iszero:one-bit"); 
+    add("z256 iszero " + h64(0), "z256:iszero:zero")
+    for a in ze + [rnd(r, 2**256) for _ in range(6)]:
+        add("z256 bits " + h64(a), "z256:bits"); add("z256 hex " + h64(a), "z256:hex")
+        add("z256 cmov %s %s 0" % (h64(a), h64(rnd(r, 2**256))), "z256:cmov:0"); add("z256 cmov %s %s 1" % (h64(a), h64(rnd(r, 2**256))), "z256:cmov:1")
+    bk = [0, 1, 2**256 - 1, int("aa" * 32, 16), int("55" * 32, 16), N - 1, N - 74, 2**255, 2**63, 2**64] + limb_scalars()[:8] + [rnd(r, 2**256) for _ in range(4 if not thorough else 40)]
+    for k in bk:
+        for w_, n in ((5, 52), (7, 37)):
+            for i in range(n):
+                add("z256 booth %s %d %d" % (h64(k), w_, i), "z256:booth:w%d:%s" % (w_, "i0" if i == 0 else ("top" if i == n - 1 else ("limb-cross" if (i * w_ - 1) % 64 > 64 - w_ - 1 else "mid"))))
+    for lvl, n in (("fp2", 2), ("fp4", 4), ("fp12", 12)):
+        for pt in ("r" * n, "0" * n, "m" * n, "".join(r.choice("01mr") for _ in range(n))):
+            add("hexrt %s %s" % (lvl, elem(r, pt)), "hexrt:" + lvl)
+    run_diff(ctx, diff, impl_exe, model_exe)
+    # ---- key extraction: the identity key is [t2]P with t2 from the Coq model (two-phase)
+    ids = [b"Alice", b"Bob", r.bytes(1), r.bytes(70)]
+    ks = [KS_STD, 1, N - 1, rnd(r, N)]
+    q = []
+    for ident in ids:
+        for hid, tag in ((1, "s"), (3, "e"), (2, "x")):
+            q.append(("hash1 %s %d" % (core.hexs(ident), hid), ident, hid, tag))
+    mo, _ = core.run_lines(model_exe, [x[0] for x in q], shards=4)
+    ext = []   # (model line, impl line, cell, group)
+    for (line, ident, hid, tag), h in zip(q, mo):
+        h1 = int(h.split(" ")[0], 16)
+        for k in ks + [(N - h1) % N]:
+            ext.append(("t2 %s %d %s" % (core.hexs(ident), hid, h64(k)), "extract %s %s %s" % (tag, h64(k), core.hexs(ident)),
+                        "extract:%s:%s" % (tag, "t1=0" if k == (N - h1) % N else "ok"), tag))
+    mo, _ = core.run_lines(model_exe, [x[0] for x in ext], shards=8)
+    io, _ = core.run_lines(impl_exe, [x[1] for x in ext], shards=8)
+    for (ml, il, cell, tag), m, a in zip(ext, mo, io):
+        ctx.cov["evaluations"] += 1; ctx.count("op:extract")
+        if m == "NONE": exp = "ERR"
+        else:
+            t2 = int(m, 16)
+            exp = ref.g1_hex(G1.mulp(t2, ref.P1)) if tag == "s" else ref.g2_hex(G2.mulp(t2, ref.P2))
+        if a == exp: ctx.cell(cell + (":ERR" if exp == "ERR" else ":ok"))
+        else: ctx.violation(cell, "extracted identity key is not [t2]P for the modelled t2 = k (H1+k)^-1: op `%s` -> %s expected %s" % (il[:120], a[:60], exp[:60]),
+                            {"kind": "failing-input", "op": il, "impl": a, "expected": exp, "model_op": ml}, True)
+    # ---- entropy consumers (scripted getentropy; a 256-bit draw is the little-endian image of the limbs)
+    cases = []
+    def rr_expect(draws, n, fail_at=None):
+        for i, d in enumerate(draws):
+            if fail_at is not None and i == fail_at: return "-1 %d" % (i + 1), None
+            if d < n: return "1 %d %s" % (i + 1, h64(d)), i + 1
+            if i == 99: return "0 100", None
+        return None, None
+    def stream(draws): return "".join(le32(d) for d in draws)
+    big = 2**256 - 1
+    for n, nm in ((N, "N"), (P, "p"), (2, "two")):
+        for draws in ([n - 1], [0], [n, n - 2], [big, n, 1], [n + 1] * 3 + [1]):
+            e, _ = rr_expect(draws, n)
+            cases.append(("rnd range %s %s" % (stream(draws), h64(n)), "rnd:range:%s:%s" % (nm, "first" if draws[0] < n else "redraw"), e))
+    cases.append(("rnd range %s %s" % (stream([big] * 100 + [1]), h64(N)), "rnd:range:100-tries", "0 100"))
+    cases.append(("rnd rangefail %s %s 0" % (stream([1]), h64(N)), "rnd:range:entropy-fails", "-1 1"))
+    cases.append(("rnd rangefail %s %s 1" % (stream([big, 1]), h64(N)), "rnd:range:entropy-fails-on-redraw", "-1 2"))
+    for lvl, n, order in (("fp2", 2, [0, 1]), ("fp4", 4, [2, 3, 0, 1]), ("fp12", 12, [2, 3, 0, 1, 6, 7, 4, 5, 10, 11, 8, 9])):
+        vals = [rnd(r, P) for _ in range(n)]
+        draws = []; 
+        for j, v in enumerate(vals):
+            if j == 1: draws.append(P + 3)        # one rejected draw
+            draws.append(v)
+        out = [None] * n
+        for pos, v in zip(order, vals): out[pos] = v
+        cases.append(("rnd %s %s" % (lvl, stream(draws)), "rnd:%s" % lvl, "1 %d %s" % (n + 1, "".join(h64(v) for v in out))))
+    kk = rnd(r, N)
+    cases.append(("rnd smsk " + stream([N, kk]), "rnd:keygen:smsk", "1 2 %s %s" % (h64(kk), ref.g2_hex(G2.mulp(kk, ref.P2)))))
+    cases.append(("rnd emsk " + stream([kk]), "rnd:keygen:emsk", "1 1 %s %s" % (h64(kk), ref.g1_hex(G1.mulp(kk, ref.P1)))))
+    cases.append(("rnd emsk " + stream([N - 74]), "rnd:keygen:emsk:N-74", "1 1 %s %s" % (h64(N - 74), ref.g1_hex(G1.mulp(N - 74, ref.P1)))))
+    A = G1.mulp(rnd(r, N), ref.P1); B = G2.mulp(rnd(r, N), ref.P2)
+    cases.append(("hexrt g1 " + ref.g1_hex(A), "hexrt:g1", "1 %s %s %s" % (h64(A[0]), h64(A[1]), h64(1))))
+    cases.append(("hexrt g2 " + ref.g2_hex(B), "hexrt:g2", "1 %s %s %s" % (ref.f2_hex(B[0]), ref.f2_hex(B[1]), ref.f2_hex((1, 0)))))
+    cases.append(("misc consts", "misc:consts", "%s %s %s %s" % (h64(P), h64(N), ref.g1_hex(ref.P1), ref.g2_hex(ref.P2))))
+    cases.append(("misc oid", "misc:oid", "sm9sign sm9encrypt sm9keyagreement 1 1 1 1"))
+    run_expected(ctx, cases, impl_exe, "helper differs from its specification")
+    # printers: return 1 and show the public fields (upper-case hex of the encoded points)
+    kp = rnd(r, N); idp = b"Eve"
+    Ppubs = ref.g2_hex(G2.mulp(kp, ref.P2)).upper(); Ppube = ref.g1_hex(G1.mulp(kp, ref.P1)).upper()
+    prn = [("prn smsk", Ppubs), ("prn smpk", Ppubs), ("prn skey", Ppubs), ("prn emsk", Ppube), ("prn empk", Ppube), ("prn ekey", Ppube),
+           ("prn z", h64(kp)), ("prn g1", Ppube), ("prn g2", Ppubs)]
+    so, _ = core.run_lines(impl_exe, ["sign %s %s 6d %s -" % (h64(kp), core.hexs(idp), le32(rnd(r, N)) + r.bytes(32).hex()),
+                                       "enc %s %s 6d6d %s -" % (h64(kp), core.hexs(idp), le32(rnd(r, N)) + r.bytes(32).hex())], shards=1)
+    lines = ["%s %s %s" % (a, h64(kp), core.hexs(idp)) for a, _ in prn]
+    exps = [e for _, e in prn]
+    if so[0].startswith("sig=") and so[1].startswith("ct="):
+        sg = so[0].split(" ")[0][4:]; ct = so[1].split(" ")[0][3:]
+        lines += ["prn sig %s %s %s" % (h64(kp), core.hexs(idp), sg), "prn ct %s %s %s" % (h64(kp), core.hexs(idp), ct),
+                  "prn sig %s %s %s00" % (h64(kp), core.hexs(idp), sg)]
+        exps += [sg[8:72].upper(), ct[18:18 + 128].upper(), None]
+    po, _ = core.run_lines(impl_exe, lines, shards=2)
+    for line, e, a in zip(lines, exps, po):
+        ctx.cov["evaluations"] += 1; ctx.count("op:prn")
+        cell = "print:" + line.split(" ")[1] + ("" if e is not None else ":trailing")
+        okp = (a.startswith("1 ") and e in a and "LBL" in a) if e is not None else a.startswith("-1")
+        if okp: ctx.cell(cell + ":ok")
+        else: ctx.violation(cell, "printer does not show the object / does not refuse a malformed one: op `%s` -> %s" % (line[:100], a[:120]),
+                            {"kind": "failing-input", "op": line, "impl": a, "expected": e}, True)
+    ctx.notes.append("wave5: %d differential, %d extract, %d helper cases, %.1fs" % (len(diff), len(ext), len(cases), time.time() - t0))
+
+
 def run(ctx):
     ctx.check_proofs()
     model, log = core.build_model("C17")
@@ -944,6 +1135,7 @@ def run(ctx):
     run_exchange(ctx, exe)
     run_der(ctx, exe, model)
     run_import(ctx, exe, model)
+    run_wave5(ctx, exe, model)
     return finish(ctx)
 
 
